@@ -46,6 +46,9 @@ type C17Case struct {
 	Clones int `json:"clones,omitempty"`
 	// DupLink (sum): "hard" or "sym" - the first file is matched a second time under another name (zdup.wsp)
 	DupLink string `json:"dup_link,omitempty"`
+	// FailAll (sum): the archive id is out of range for every file, so every one of the (many) per-file reads
+	// fails; the sum must come back with that error, as a read of any one file alone does
+	FailAll bool `json:"fail_all,omitempty"`
 }
 
 func noteLastCase(c interface{}) { noteCaseInFlight(c) }
@@ -213,6 +216,9 @@ func runC17(c C17Case, ev *Evid) (fs []Finding) {
 		<-held
 		out := filepath.Join(dir, "sum.txt")
 		sc := &cmd.SumCommand{SrcBase: base, ItemPattern: "s1", SrcPattern: "*.wsp", ArchiveID: c.ArchiveID, TextOut: out, ShowHeader: true}
+		if c.FailAll {
+			sc.ArchiveID = len(files[0].Spec.L.Archives) + 1
+		}
 		var err error
 		var pm string
 		sumDone := make(chan struct{})
@@ -228,6 +234,14 @@ func runC17(c C17Case, ev *Evid) (fs []Finding) {
 			return
 		}
 		<-release
+		if c.FailAll {
+			if pm != "" || err == nil {
+				add("concurrent-differs", "sum over %d files with an archive id none of them has: result %v %s; reading any one of them alone fails with 'archive ID out of range'", len(files), err, pm)
+				return
+			}
+			ev.Count(HashJSON(c), true, "kind=sum", "every-read-fails", fmt.Sprintf("files>=%d", len(files)/10*10))
+			return nil
+		}
 		if pm != "" || err != nil {
 			add("sum-fails", "sum over %d files: %v %s", len(files), err, pm)
 			return
@@ -469,6 +483,12 @@ func genC17(t *rapid.T) C17Case {
 		}
 		if rapid.IntRange(0, 3).Draw(t, "manyFiles") == 0 {
 			c.Clones = rapid.IntRange(25, 200).Draw(t, "clones")
+		}
+		if rapid.IntRange(0, 5).Draw(t, "failAll") == 0 {
+			c.FailAll = true
+			if c.Clones < 20 {
+				c.Clones = rapid.IntRange(20, 60).Draw(t, "failAllClones")
+			}
 		}
 		if rapid.IntRange(0, 4).Draw(t, "dupLink") == 0 {
 			c.DupLink = rapid.SampledFrom([]string{"hard", "sym"}).Draw(t, "dupKind")
